@@ -76,5 +76,8 @@ ClassifyC16(rec) ==
          ELSE IF ~JEq(rec.others_before, rec.others_after) THEN "purge_disturbs_others"
          ELSE IF rec.leftover # 0 THEN "purge_leaves_keys"
          ELSE "ok"
+    \* several operations on ONE patch for one id (purge / store of different records): after the merge the last one counts
+    [] rec.kind = "sequence" ->
+         IF ~JEq(rec.fetched, IF IsNull(rec.expected) THEN rec.expected ELSE DropNulls(rec.expected)) THEN "later_operation_on_the_same_patch_lost" ELSE "ok"
     [] OTHER -> "unknown_record_kind"
 =============================================================================
